@@ -38,7 +38,7 @@ def bit_order(prog: Program) -> RuleResult:
         stray = [r for r in rets if not (isinstance(r.value, ast.Name) and r.value.id in built) and not (r.value is not None and ast.dump(r.value) in inits)]
         typed = [c for c in walk_no_nested(f) if isinstance(c, ast.Call) and dotted(c.func) in ("isinstance", "type")]
         if not floops or not rets:
-            raise AnalysisError(f"{fname}: scanning loop / return not found")
+            continue  # not a scan at all: the clauses below say what is wrong with it
         if stray:
             res.fail(construct, f"`{short(stray[0], 70)}` answers without the scan: the mask / subsequence of every (child, parent) pair is what the element-by-element scan finds", mod, stray[0])
         elif typed:
